@@ -48,7 +48,7 @@ impl FillGeometryBuilder for SrcRecorder {
 }
 
 #[derive(Clone, Debug)]
-enum EdgeGeom {
+pub(crate) enum EdgeGeom {
     Line(Point, Point),
     Quad(Point, Point, Point),
     Cubic(Point, Point, Point, Point),
@@ -56,12 +56,12 @@ enum EdgeGeom {
 
 /// endpoint table (position, attributes) and edge table (from id, to id) -> geometry
 #[derive(Default, Clone)]
-struct Tables {
-    endpoints: BTreeMap<u32, (Point, Vec<f32>)>,
-    edges: BTreeMap<(u32, u32), Vec<EdgeGeom>>,
+pub(crate) struct Tables {
+    pub endpoints: BTreeMap<u32, (Point, Vec<f32>)>,
+    pub edges: BTreeMap<(u32, u32), Vec<EdgeGeom>>,
 }
 
-fn tables_from_path(p: &Path) -> Tables {
+pub(crate) fn tables_from_path(p: &Path) -> Tables {
     let mut t = Tables::default();
     let na = p.num_attributes();
     let mut ep = |t: &mut Tables, id: EndpointId| {
@@ -87,6 +87,42 @@ fn tables_from_path(p: &Path) -> Tables {
                 t.edges.entry((last.0, first.0)).or_default().push(EdgeGeom::Line(p[last], p[first]));
             }
         }
+    }
+    t
+}
+
+
+/// ids handed out one per endpoint in event order (FillBuilder, StrokeBuilder, StrokeTessellator::tessellate)
+pub(crate) fn tables_sequential(spec: &PathSpec) -> Tables {
+    let mut t = Tables::default();
+    let mut next = 0u32;
+    for s in &spec.subs {
+        let first = next;
+        next += 1;
+        t.endpoints.insert(first, (s.start, s.start_attrs.clone()));
+        let mut prev = (first, s.start);
+        for g in &s.segs {
+            let id = next;
+            next += 1;
+            match g {
+                Seg::Line(p, a) => {
+                    t.endpoints.insert(id, (*p, a.clone()));
+                    t.edges.entry((prev.0, id)).or_default().push(EdgeGeom::Line(prev.1, *p));
+                    prev = (id, *p);
+                }
+                Seg::Quad(c, p, a) => {
+                    t.endpoints.insert(id, (*p, a.clone()));
+                    t.edges.entry((prev.0, id)).or_default().push(EdgeGeom::Quad(prev.1, *c, *p));
+                    prev = (id, *p);
+                }
+                Seg::Cubic(c1, c2, p, a) => {
+                    t.endpoints.insert(id, (*p, a.clone()));
+                    t.edges.entry((prev.0, id)).or_default().push(EdgeGeom::Cubic(prev.1, *c1, *c2, *p));
+                    prev = (id, *p);
+                }
+            }
+        }
+        t.edges.entry((prev.0, first)).or_default().push(EdgeGeom::Line(prev.1, s.start));
     }
     t
 }
@@ -127,7 +163,7 @@ fn run_builder(spec: &PathSpec, tess: &mut FillTessellator, o: &FillOptions, out
     (b.build(), t)
 }
 
-fn sample(g: &EdgeGeom, t: f64) -> (f64, f64) {
+pub(crate) fn sample(g: &EdgeGeom, t: f64) -> (f64, f64) {
     let f = |p: &Point| (p.x as f64, p.y as f64);
     let u = 1.0 - t;
     match g {
@@ -157,7 +193,7 @@ fn gattrs(a: &[f32]) -> String {
 }
 
 /// distance from p to the closed segment a-b (f64)
-fn seg_dist(p: (f64, f64), a: (f64, f64), b: (f64, f64)) -> f64 {
+pub(crate) fn seg_dist(p: (f64, f64), a: (f64, f64), b: (f64, f64)) -> f64 {
     let (dx, dy) = (b.0 - a.0, b.1 - a.1);
     let l2 = dx * dx + dy * dy;
     let t = if l2 == 0.0 { 0.0 } else { (((p.0 - a.0) * dx + (p.1 - a.1) * dy) / l2).clamp(0.0, 1.0) };
@@ -168,7 +204,7 @@ fn seg_dist(p: (f64, f64), a: (f64, f64), b: (f64, f64)) -> f64 {
 
 /// the chords lyon flattens a curve into (either direction: which one is used depends on the sweep
 /// orientation), with parameters expressed along the original curve
-fn chords(g: &EdgeGeom, tol: f32) -> Vec<((f64, f64), (f64, f64), f64, f64)> {
+pub(crate) fn chords(g: &EdgeGeom, tol: f32) -> Vec<((f64, f64), (f64, f64), f64, f64)> {
     use lyon_path::geom::{CubicBezierSegment, QuadraticBezierSegment};
     let mut out = Vec::new();
     let f = |p: Point| (p.x as f64, p.y as f64);
